@@ -389,6 +389,17 @@ func classify(f failure, min string) (site, class string) {
 			}
 		}
 	}
+	if f.Clause == clauseRT && (f.Site == siteStringStructure || f.Site == siteStringAccept) {
+		for _, t := range toks {
+			if t.kind != tkString && t.kind != tkBlockString {
+				continue
+			}
+			w := strings.Trim(strings.Trim(t.text, `"`), " \t\r\n")
+			if grammarKeywords[w] {
+				return f.Site, "string whose content is the keyword " + w
+			}
+		}
+	}
 	if f.Clause == clauseInside && f.Site == siteBlockLiteral {
 		contents := blockContents(min)
 		for i, t := range toks {
